@@ -69,6 +69,18 @@ labelstmt(struct func *f, struct scope *s)
 	stmt(f, s);
 }
 
+/* 6.9.1 the body of a function definition; its outermost block is the scope of the parameters (6.2.1p4) */
+void
+funcbody(struct func *f, struct scope *s)
+{
+	expect(TLBRACE, "to begin function body");
+	while (tok.kind != TRBRACE) {
+		if (!label(f, s) && !decl(s, f))
+			stmt(f, s);
+	}
+	next();
+}
+
 /* 6.8 Statements and blocks */
 void
 stmt(struct func *f, struct scope *s)
